@@ -199,6 +199,52 @@ class R:
     m: dict[str, str] = field(default_factory=dict, metadata={"type": "Attributes", "namespace": "##any"})
 '''
 INST_MAPQ = {"__cls__": "R", "fields": {"m": {"__map__": {"k": "ns0:x"}}}}
+# empty instances of nillable classes: the element keeps xsi:nil="true" and the parser builds the instance from the
+# attributes (inside the guards); the Text variant of finding C01-F1: an empty token list in the Text field comes back None
+WITNESS_NILK = G.HEADER + '''
+@dataclass
+class T:
+    class Meta:
+        nillable = True
+    v: Optional[int] = field(default=None, metadata={"type": "Text"})
+    x: Optional[str] = field(default=None, metadata={"type": "Attribute"})
+
+@dataclass
+class P:
+    class Meta:
+        nillable = True
+    e: Optional[int] = field(default=None, metadata={"type": "Element"})
+    x: Optional[str] = field(default=None, metadata={"type": "Attribute"})
+
+@dataclass
+class L:
+    class Meta:
+        nillable = True
+    v: list[int] = field(default_factory=list, metadata={"type": "Text", "tokens": True})
+    x: Optional[str] = field(default=None, metadata={"type": "Attribute"})
+
+@dataclass
+class R:
+    p: list[P] = field(default_factory=list, metadata={"type": "Element"})
+    t: Optional[T] = field(default=None, metadata={"type": "Element"})
+    l: Optional[L] = field(default=None, metadata={"type": "Element"})
+'''
+
+
+def _pi(v):
+    return {"__p__": "int", "v": v}
+
+
+def _ps(v):
+    return {"__p__": "str", "v": v}
+
+
+INST_NILK = {"__cls__": "R", "fields": {
+    "p": [{"__cls__": "P", "fields": {"e": None, "x": _ps("1")}}, {"__cls__": "P", "fields": {"e": _pi(2), "x": None}},
+          {"__cls__": "P", "fields": {"e": None, "x": None}}],
+    "t": {"__cls__": "T", "fields": {"v": None, "x": _ps("2")}},
+    "l": {"__cls__": "L", "fields": {"v": [_pi(3), _pi(4)], "x": None}}}}
+INST_NILK_TOK = {"__cls__": "R", "fields": {"p": [], "t": None, "l": {"__cls__": "L", "fields": {"v": [], "x": _ps("3")}}}}
 WITNESS_JOBS = [
     {"src": WITNESS_RICH, "name": "w_rich", "root": "Root", "instances": [INST_RICH], "cases": [
         {"i": 0, "writer": "native", "handler": "native", "config": {"indent": "  "}, "ns_map": {"p": "urn:a"}, "strict": True},
@@ -219,12 +265,15 @@ WITNESS_JOBS = [
         {"i": 0, "writer": "native", "handler": "native", "config": {}, "ns_map": None, "strict": True}]},
     {"src": WITNESS_MAPQ, "name": "w_mapq", "root": "R", "instances": [INST_MAPQ], "cases": [
         {"i": 0, "writer": "native", "handler": "native", "config": {}, "ns_map": None, "strict": True}]},
+    {"src": WITNESS_NILK, "name": "w_nilk", "root": "R", "instances": [INST_NILK, INST_NILK_TOK], "cases": [
+        {"i": 0, "writer": "native", "handler": "lxml", "config": {"indent": "  "}, "ns_map": None, "strict": True},
+        {"i": 1, "writer": "native", "handler": "native", "config": {}, "ns_map": None, "strict": True}]},
 ]
 WITNESS_PATH = os.path.join(COQ, "Proofs", "RoundtripWitness.v")
 
 
 def witness_text(out):
-    rich, nil, seqtok, qn, tree, inh, xdrop, mapq = out["jobs"]
+    rich, nil, seqtok, qn, tree, inh, xdrop, mapq, nilk = out["jobs"]
 
     def D(name, ty, term):
         return f"Definition {name} : {ty} :=\n  {term}.\n"
@@ -319,6 +368,20 @@ Import ListNotations.
     txt += D("root_mapq", "cls", mapq["root"])
     txt += D("o_mapq", "value", mapq["cases"][0]["value"])
     txt += D("pevs_mapq", "list pevent", mapq["cases"][0]["pevents"])
+    txt += '''
+(* model `nilk`: nillable classes T (Text v : Optional[int], attribute x), P (element e : Optional[int], attribute x),
+   L (Text v : token list of int, attribute x); R.p : list[P], R.t : Optional[T], R.l : Optional[L].
+   Instance R(p=[P(x='1'), P(e=2), P()], t=T(x='2'), l=L(v=[3, 4])): the empty instances keep xsi:nil="true" and are
+   built from their attributes all the same.  Instance R(l=L(v=[], x='3')): under xsi:nil ElementNode.bind_text
+   stores None, the empty token list comes back as None (Text variant of known finding C01-F1) *)
+'''
+    txt += D("u_nilk", "universe", nilk["universe"])
+    txt += D("root_nilk", "cls", nilk["root"])
+    txt += D("o_nilk", "value", nilk["cases"][0]["value"])
+    txt += "(* XmlEventWriter, indent  ->  LxmlEventHandler *)\n"
+    txt += D("pevs_nilk", "list pevent", nilk["cases"][0]["pevents"])
+    txt += D("o_nilk_tok", "value", nilk["cases"][1]["value"])
+    txt += D("pevs_nilk_tok", "list pevent", nilk["cases"][1]["pevents"])
     return txt
 
 
@@ -792,6 +855,39 @@ def fields_along(m, inst, path):
     return out
 
 
+def xsi_marked_owner(m, inst, path):
+    """the object that owns the last field of the diff path was written with an xsi:type / xsi:nil attribute: it sits in
+    a nillable field, its class is nillable, or its class is not the declared class of the field"""
+    def mark(f, obj):
+        tp = f.get("type") if f else None
+        declared = tp[1] if tp and tp[0] == "class" else None
+        return bool((f or {}).get("nillable") or G.find_class(m, obj["__cls__"])["meta"].get("nillable")
+                    or declared is None or obj["__cls__"] != declared)
+
+    def is_obj(x):
+        return isinstance(x, dict) and "__cls__" in x
+    cur = inst
+    marked = bool(is_obj(cur) and G.find_class(m, cur["__cls__"])["meta"].get("nillable"))
+    last, pending = False, None
+    for name, idx in re.findall(r"\.(\w+)|\[(\d+)\]", path):
+        if name:
+            if not is_obj(cur):
+                break
+            fs = {f["name"]: f for f in G.all_fields(m, G.find_class(m, cur["__cls__"]))}
+            if name not in fs:
+                break
+            last, pending = marked, fs[name]
+            cur = cur["fields"].get(name)
+        else:
+            if isinstance(cur, list) and int(idx) < len(cur):
+                cur = cur[int(idx)]
+            else:
+                break
+        if is_obj(cur):
+            marked = mark(pending, cur)
+    return last
+
+
 def norm_msg(msg):
     """exception text without generated module names / prefixes that differ between reruns"""
     return re.sub(r"gm_\d+_\d+(_v)?", "gm", msg)[:80]
@@ -844,7 +940,8 @@ def classify(m, inst, case, res, vres):
         return "xsi-type-dropped"                  # C01-F8: the subclass's type name equals the element name
     if "exc" in res:
         return "exception-" + res["exc"]
-    if path.endswith("<keys>") and "XMLSchema-instance}" in res.get("back", ""):
+    if path.endswith("<keys>") and ("XMLSchema-instance}" in res.get("back", "") or xsi_marked_owner(m, inst, path)):
+        # C01-F2 (the repr of the parsed object is cut at 1500 characters: the owner of the map is looked up in the recipe)
         return "xsi-attr-captured-by-attributes-map"
     if prefixed_any_values(inst) and along_any_attribute(m, inst, path):
         return "any-attribute-prefixed-value"     # C01-F9: 'prefix:local' in an attribute map / generic attribute is expanded
@@ -1010,8 +1107,8 @@ def run(ck: Check):
     ck.cov["samples"] = ck.cov["samples"] + [{"case": jobs[-1]["cases"][0], "instance": jobs[-1]["instances"][0]}]
     ck.cov["proved_slice"] = ("C01_roundtrip_S4 / C01_roundtrip_ordered_S5_partial: Attribute / Element / Text fields of primitive, enum or exact class type, optional, default, list, "
                               "tokens, list of token lists, nested classes (recursive class graphs, subclass instances with xsi:type), wrappers, sequence groups, "
-                              "QName values, nillable fields (simple type: None or non-empty values; class type: None or instances with content), nillable classes "
-                              "(instances with content), xs:anyType elements holding a str, attribute maps and wildcard fields holding generic elements (readings that keep the attribute order), namespaces; infoset "
+                              "QName values, nillable fields (simple type: None or non-empty values; class type: None, instances with content, or empty instances of a nillable class), nillable classes "
+                              "(instances with content, or empty instances whose Text field holds None: the element keeps xsi:nil), xs:anyType elements holding a str, attribute maps and wildcard fields holding generic elements (readings that keep the attribute order), namespaces; infoset "
                               "level, every reading (attribute order, prefix maps, indentation) and, through C03, the printed document; everything else "
                               "(wrapped lists inside a sequence group, empty texts and instances without content in nillable positions, wildcards, compound fields, unions, below the "
                               "infoset) is covered by correspondence + oracle only")
